@@ -245,6 +245,23 @@ def selection_applies(rnd, tier):
     return progs
 
 
+def mask_codes(rnd, tier):
+    """C06: mask(values=...) / mask(equal=...) on integer codes of large
+    magnitude (template T10), alone and with another predicate."""
+    progs = []
+    nowhere = {'h': False, 'shape': [], 'bits': []}
+    for v in (2019001, 2019003, 2019021, 2020001, 2, 1):
+        for k in ('values', 'equal'):
+            for extra in ([], [{'k': 'less', 'v': 2019002}],
+                          [{'k': 'greater_equal', 'v': 2019022}]):
+                progs.append({'templates': ['T10'], 'steps': [{
+                    'act': 'mask', 'src': 1, 'others': [], 'args': {
+                        'p': [{'k': k, 'v': v}] + extra, 'where': nowhere,
+                        'usedims': {'h': False, 'v': []},
+                        'coords': False}}]})
+    return progs
+
+
 def multidim_applies(rnd, tier):
     """C03: every pair / triple of dimensions of every template reduced in ONE
     call - with one reducer name for all of them, and with min/max
@@ -311,6 +328,8 @@ def run(prop, tier, extra=None):
             progs.append(cd.gen_program(
                 rnd, rnd.choice([2, 3]), templates=['T1', 'T2', 'T3', 'T4',
                                                     'T5', 'T7'], disk=True))
+    if prop == 'C06':
+        progs += mask_codes(rnd, tier)
     if prop == 'C04':
         progs += hetero_stacks(rnd, tier)
         progs += mfopen_stacks(rnd, tier)
